@@ -707,7 +707,9 @@ def api_parity(prop, tier, kf):
     def one(cname):
         cfg = configs.BY_NAME[cname]
         ws, seen = [], set()
-        for w in gen.wrappers_for(cfg, props, 'thorough') + memops.wrappers_for(cfg, ['C08', 'C09', 'C03'], 'thorough'):
+        from . import denom
+        for w in (gen.wrappers_for(cfg, props, 'thorough') + memops.wrappers_for(cfg, ['C08', 'C09', 'C03'], 'thorough')
+                  + denom.wrappers_for(cfg, 'C14', 'thorough') + denom.wrappers_for(cfg, 'C15', 'thorough')):
             if w['name'] not in seen:
                 seen.add(w['name'])
                 ws.append(w)
@@ -720,7 +722,8 @@ def api_parity(prop, tier, kf):
             m = re.match(r'vec(\d+)x(\d+)([uif])', w['type'])
             if not m:
                 continue
-            sib = w['name'].replace('w_%s__' % w['type'], 'w_vec1x%s%s__' % (m.group(2), m.group(3)), 1)
+            # the same call for the width-1 vector of the element type: every NxB type name in the wrapper name becomes 1xB
+            sib = re.sub(r'(vec|mask|arr)%sx(\d+[uif])' % m.group(1), r'\g<1>1x\2', w['name'])
             if sib in okn:
                 out.append({'cfg': cname, 'kind': 'parity:missing', 'wrapper': w, 'desc': '%s compiles for vec1x%s%s but not for %s: %s'
                             % (w['op'] + ('<%s>' % w['K'] if w.get('K') is not None else ''), m.group(2), m.group(3), w['type'], err[:160])})
